@@ -23,7 +23,9 @@ ASSUMPTIONS = ['sensitive roots = the per-case sandbox root (contains inputs, ou
 
 DIR_NAMES = ['plain', 'a,b', 'x=y', 'br[1]', 'par(2)', "q'uote", 'dq"uote', 'semi;colon', 'at@home', 'plus+', 'colon:x', 'hash#1', 'brace{1}', 'amp&']
 FAILS = ['none', 'none', 'none', 'missing_query', 'missing_stats', 'missing_markers', 'garbled_query', 'garbled_stats',
-         'garbled_markers', 'stats_lacks_sum', 'bad_normalization', 'negative', 'unknown_marker', 'worker_fault', 'no_shared_marker']
+         'garbled_markers', 'stats_lacks_sum', 'bad_normalization', 'negative', 'unknown_marker', 'worker_fault', 'no_shared_marker',
+         'tmp_dir_missing', 'query_is_dir', 'stats_lacks_taxonomy', 'markers_wrong_type', 'query_lacks_x', 'csv_dir_missing',
+         'hdf5_dir_missing', 'stats_is_dir', 'worker_fault_mid', 'query_var_garbled', 'tree_invalid']
 
 
 def budget(tier):
@@ -130,16 +132,53 @@ def one_run(base, spec, cloud_safe, tag):
     if fail == 'stats_lacks_sum':
         with h5py.File(stats, 'a') as f:
             del f['sum']
+    if fail == 'stats_lacks_taxonomy':
+        with h5py.File(stats, 'a') as f:
+            del f['taxonomy_tree']
+    if fail == 'tree_invalid':
+        with h5py.File(stats, 'a') as f:
+            t = json.loads(f['taxonomy_tree'][()].decode())
+            t[t['hierarchy'][-1]]['orphan_leaf'] = []
+            if len(t['hierarchy']) == 1:
+                t['extra_level'] = {}
+            del f['taxonomy_tree']
+            f.create_dataset('taxonomy_tree', data=json.dumps(t).encode())
+    if fail == 'markers_wrong_type':
+        markers.write_text(json.dumps([['None', ['g0']]]))
+    if fail == 'query_lacks_x':
+        with h5py.File(query, 'a') as f:
+            del f['X']
+    if fail == 'query_var_garbled':
+        with h5py.File(query, 'a') as f:
+            del f['var']
+            f.create_dataset('var', data=b'garbage')
+    if fail == 'query_is_dir':
+        query.unlink()
+        query.mkdir()
+    if fail == 'stats_is_dir':
+        stats.unlink()
+        stats.mkdir()
     cfg = dict(s['cfg'], cloud_safe=cloud_safe, out_dir=str(root / ('o_' + lay['out_dir'])), tmp_name='t_' + lay['tmp_name'])
     if fail == 'bad_normalization':
         cfg['normalization'] = 'rawr'
     paths = {'stats': stats, 'query': query, 'markers': markers}
-    plan = {0: {'fault': 'exit', 'point': 'before'}} if fail == 'worker_fault' else None
+    plan = None
+    if fail == 'worker_fault':
+        plan = {0: {'fault': 'exit', 'point': 'before'}}
+    if fail == 'worker_fault_mid':
+        plan = {0: {'fault': 'raise', 'point': 'mid', 'at': 40}}
+    kw = dict(out_prefix='out' + deco, log_file=lay['log_file'])
+    if fail == 'tmp_dir_missing':
+        cfg = dict(cfg, tmp_no_create=True)
+    if fail == 'csv_dir_missing':
+        cfg = dict(cfg, csv_override=str(root / 'no_such_dir' / ('res' + deco + '.csv')))
+    if fail == 'hdf5_dir_missing':
+        cfg = dict(cfg, hdf5_override=str(root / 'no_such_dir' / ('res' + deco + '.h5')))
     if plan:
         with inject.controlled(plan=plan):
-            o = mapping.run(root, paths, cfg, out_prefix='out' + deco, log_file=lay['log_file'])
+            o = mapping.run(root, paths, cfg, **kw)
     else:
-        o = mapping.run(root, paths, cfg, out_prefix='out' + deco, log_file=lay['log_file'])
+        o = mapping.run(root, paths, cfg, **kw)
     return o, collect_texts(o.config)
 
 
